@@ -442,10 +442,34 @@ def stream_bbox(rep, drv, r, n):
                                {'op': ln, 'model': o, 'impl': e})
 
 
+def contact_tag(kind, p):
+    """classify measure-zero contacts of an ellipse with the pixel grid (known finding F20)"""
+    sp_ = shape_params(kind, p)
+    tang = any(abs((v + 0.5) - round(v + 0.5)) < 1e-9 for v in
+               (p['cx'] - sp_['xext'], p['cx'] + sp_['xext'], p['cy'] - sp_['yext'], p['cy'] + sp_['yext']))
+    if tang:
+        return ':tangent-to-pixel-edge'
+    if kind.startswith('ell'):
+        c, s_ = sp_['c'], sp_['s']
+        shapes = [sp_['outer']] + ([sp_['inner']] if sp_['inner'] else [])
+        x0, x1 = math.floor(p['cx'] - sp_['xext']) - 1, math.ceil(p['cx'] + sp_['xext']) + 2
+        y0, y1 = math.floor(p['cy'] - sp_['yext']) - 1, math.ceil(p['cy'] + sp_['yext']) + 2
+        for (a, b) in shapes:
+            for ix in range(x0, x1):
+                for iy in range(y0, y1):
+                    x, y = ix + 0.5 - p['cx'], iy + 0.5 - p['cy']
+                    xt, yt = y * s_ + x * c, y * c - x * s_
+                    if abs((xt / a) ** 2 + (yt / b) ** 2 - 1.0) < 1e-9:
+                        return ':pixel-corner-on-ellipse'
+    return ''
+
+
 def probe_exact(rep, r, n):
     """(S) exact mode: weights in [0,1], sum = analytic area, annulus = outer - inner"""
     corpus = [('ell', {'cx': 8.5, 'cy': 0, 'size': 0.5, 'ratio': 1.0, 'theta': math.pi / 4, 'inner': 0.5}),
               ('ell', {'cx': 8.0, 'cy': 0, 'size': 0.5, 'ratio': 1.0, 'theta': math.pi / 4, 'inner': 0.5}),
+              ('ellann', {'cx': 3.5, 'cy': 4.0, 'size': 0.5, 'ratio': 0.25, 'theta': math.pi / 2, 'inner': 0.875}),
+              ('ellann', {'cx': 10.625, 'cy': 9.875, 'size': 1.0, 'ratio': 0.5, 'theta': math.pi / 4, 'inner': 0.5}),
               ('circ', {'cx': 8.5, 'cy': 0, 'size': 0.5, 'ratio': 1.0, 'theta': 0.0, 'inner': 0.5}),
               ('rect', {'cx': 8.5, 'cy': 0, 'size': 0.5, 'ratio': 1.0, 'theta': 0.0, 'inner': 0.5})]
     for k in range(n + len(corpus)):
@@ -467,7 +491,7 @@ def probe_exact(rep, r, n):
         rep.case(('exact', kind, tuple(sorted(p.items()))), True, kind=f'exact:{kind}')
         rep.probe_only += 1
         if d.min() < -1e-9 or d.max() > 1 + 1e-9 or not np.isfinite(d).all():
-            rep.violation(f'exact-weight-range:{kind}',
+            rep.violation(f'exact-weight-range:{kind}' + contact_tag(kind, p),
                           f'{kind} exact weights outside [0,1]: min {d.min()} max {d.max()}', replay)
             continue
         area = float(ap.area)
@@ -486,11 +510,7 @@ def probe_exact(rep, r, n):
         else:
             tol = 1e-7 * max(ana, 1e-3) + 1e-10
         if abs(tot - ana) > tol:
-            sp_ = shape_params(kind, p)
-            tang = any(abs((v + 0.5) - round(v + 0.5)) < 1e-9 for v in
-                       (p['cx'] - sp_['xext'], p['cx'] + sp_['xext'], p['cy'] - sp_['yext'],
-                        p['cy'] + sp_['yext']))
-            tag = ':tangent-to-pixel-edge' if tang else ''
+            tag = contact_tag(kind, p)
             rep.violation(f'exact-sum-area:{kind}{tag}',
                           f'{kind} exact mask sums to {tot}, analytic area {ana} (tol {tol:.3g})', replay)
 
